@@ -1,19 +1,19 @@
 #!/bin/sh
 # Run checks against a patched COPY of /repo (never /repo itself, other work may be building against it).
 #   tools/mutcheck.sh <patch.diff|none> C01 C13 ...
-# Uses /work/mutrepo_c20a (detached worktree of /repo) and /work/mt_c20a (rsync copy of /verif with the
-# harness' path dependencies pointed at /work/mutrepo_c20a; keeps its own build directories).
+# Uses /work/mutrepo_resync (detached worktree of /repo) and /work/mt_resync (rsync copy of /verif with the
+# harness' path dependencies pointed at /work/mutrepo_resync; keeps its own build directories).
 set -e
 PATCH="$1"; shift
-MR=/work/mutrepo_c20a; MT=/work/mt_c20a
+MR=/work/mutrepo_resync${SLOT:-}; MT=/work/mt_resync${SLOT:-}
 [ -d $MR ] || git -C /repo worktree add -q --detach $MR HEAD
 git -C $MR checkout -q --detach "$(git -C /repo rev-parse HEAD)"
 git -C $MR checkout -q -- .
 git -C $MR clean -fdq -e target
 if [ "$PATCH" != none ]; then git -C $MR apply "$PATCH"; fi
 mkdir -p $MT
-rsync -a --delete --exclude .lake --exclude target --exclude run --exclude .git --exclude evidence /work/c20a/ $MT/
-sed -i 's#"/repo/#"/work/mutrepo_c20a/#' $MT/harness/Cargo.toml
+rsync -a --delete --exclude .lake --exclude target --exclude run --exclude .git --exclude evidence ${SRC:-/work/resync}/ $MT/
+sed -i "s#\"/repo/#\"$MR/#" $MT/harness/Cargo.toml
 cd $MT
 (cd lean/CwPlus && lake build driver >/dev/null 2>&1 || true)
 rc=0
